@@ -292,10 +292,15 @@ def write_evidence(prop, tier, seed, units, results, violations, known_hit, wall
     cmd = next((r['cmd'] for r in results if r['cmd']), 'cbmc')
     known_n = sum(1 for _ in known_hit)
     ev = dict(
-        property_id=prop, tier=tier, seed=seed, level='proof',
+        property_id=prop, tier=tier, seed=seed, level='proof' if sum(r['obligations'] for r in proved) > 0 else 'model_checking',
         coverage=dict(
             obligations=sum(r['obligations'] for r in proved),
             discharged=sum(r['discharged'] for r in proved),
+            # generic counts (also the only ones that apply when a property has bounded units only): one case = one unit =
+            # one complete symbolic exploration of that unit's stated input domain by CBMC
+            evaluations=sum(r['obligations'] for r in results),
+            distinct_nontrivial=sum(1 for r in results if r['status'] == 'ok' and r['obligations'] >= 1),
+            rule='a case is a proof unit (one CBMC run over the whole stated input domain of that unit: all argument values, all parser states admitted by its precondition, all allocation-failure patterns); it counts when all its obligations are discharged and it generated at least one; evaluations = obligations checked in all units of this run',
             checker_cmd=cmd,
             trusted_base=TRUSTED_BASE,
             samples=samples[:40],
